@@ -70,6 +70,26 @@ CLAIMED = {
    "Every (state, event in {P,R,F,E,K,reopen}, injector, j) is executed from scratch: no panic; a failed syscall makes the step return an error (never Ok); the stored background error refuses later commits without trace; reads equal the committed state; drop under the fault terminates; after the fault is gone reopen shows S_k with k >= commits synced before the failure.",
    "Stepping mode (no threads). Failures are persistent (as quantified). A power loss following an I/O failure is not combined here.",
    "DESIGN.md §3 E2 family 5, §4 C16"),
+ "C09": ("seqmc+crashmc", "model_checking",
+   "explicit-state breadth-first search over the real Db with adversarial key families (identity hashing) and reindex batches as events; crash-point enumeration over growth edges",
+   "From a state with one full 64-entry index page: commits that overflow it (growth 16->17 bits), remove/replace keys still in the old index, build and edit a 3-key collision chain equal in every index-visible bit, overflow the new index's page (second growth from a reindex batch), interleaved with every stage event incl. reindex batches, and reopen; every key ever written is read after every event. Crash scenarios put a crash point at every file operation of every edge of a growth (new index creation, batch records, DropTable, unlink of the old file) with the C02 oracle.",
+   "Bounds per scenario (quick: one commit after the fill; thorough: up to three, growth+crash with a following commit, power loss). At most 6 reindex-batch events per history. 'Each live key exactly once across index files' needs the file parser (C14, not built).",
+   "DESIGN.md §4 C09"),
+ "C17": ("admin", "exploration",
+   "exhaustive finite sweeps: all 384 option combinations x 3 column positions through the metadata round trip; all layouts x administration calls x {clean, unreplayed logs}; all single-field option mismatches and column-count mismatches",
+   "Round trip of every ColumnOptions value; open of a missing path; for every layout of 1..2 (thorough 1..3) columns over {hash, btree, ref-counted, multitree} with content, cleanly closed and with synced-but-unapplied logs present: mismatching opens fail and leave every file byte unchanged; add/drop/reset/clear leave other columns equal to the model, the affected column empty or reconfigured, and the database usable with the options left behind.",
+   "Stored/requested pairs: all valid single-field differences and column-count differences (not all ~147k pairs).",
+   "DESIGN.md §4 C17"),
+ "C18": ("handles", "model_checking",
+   "exhaustive enumeration of open/open_or_create/drop sequences over three handle slots against a one-live-handle model; second open injected at every file operation of a recovering open and of a drop with queued work; holder process killed at every operation of its recovery",
+   "(a) all sequences of 4 (thorough 6) actions from a non-existent directory; (b) a callback from the I/O recorder attempts a second open after every file operation of a first open that replays logs and of the drop of that handle with two commits queued: always a lock error, no file byte changed; (c) a forked process holds the database stopped at operation k of its recovery (every k): the parent is refused, kills it with SIGKILL, then opens successfully and sees all committed data.",
+   "Real threads racing open/drop are not scheduled by this check (the interleaving points are file operations). flock semantics of this kernel.",
+   "DESIGN.md §4 C18"),
+ "C20": ("migrate", "exploration",
+   "exhaustive sweep over source/destination option pairs x selection mode x overwrite x content sets x unselected-column layouts through the real migrate(), judged after it returns against the translated reference model",
+   "9 x 9 option pairs over {plain, preimage, ref-counted} x {none, lz4, snappy}, automatic and forced selection, overwrite on/off, content incl. several size classes, a chained 40 kB value, counts 1..3, more than one 10240-operation batch, with an unselected btree column and an unselected multitree column holding two trees that share a node. Oracle: every key, value and count in the result; no extra entries; unselected columns equal (and the shared node survives dereferencing one tree); source intact unless overwriting.",
+   "Quick runs a covering third of the product; thorough all. migrate() uses real background threads: only its final outcome is judged. Uniform-key columns with a grown index are not in the content sets.",
+   "DESIGN.md §4 C20"),
 }
 
 NOT_YET = {}
@@ -112,6 +132,9 @@ def main():
             {"name": "pagemc", "path": "/verif/mc/src/props/c19.rs", "serves_properties": ["C19"], "kind_free_text": "exhaustive enumeration of index pages x keys x start positions against both page-search implementations"},
             {"name": "crashmc", "path": "/verif/mc/src/crash.rs, /verif/mc/src/crashmc.rs", "serves_properties": ["C02", "C03", "C12", "C13"], "kind_free_text": "I/O trace recording by libc interposition + mmap store hook, shadow file system, exhaustive crash-image enumeration with recovery oracle"},
             {"name": "faultmc", "path": "/verif/mc/src/faultmc.rs", "serves_properties": ["C16"], "kind_free_text": "persistent I/O failure injected at every file-operation index of every step of every edge"},
+            {"name": "admin", "path": "/verif/mc/src/props/c17.rs", "serves_properties": ["C17"], "kind_free_text": "exhaustive sweeps over option combinations, layouts and administration calls"},
+            {"name": "handles", "path": "/verif/mc/src/props/c18.rs", "serves_properties": ["C18"], "kind_free_text": "exhaustive open/drop sequences, second-opener injection at I/O boundaries, holder process killed at every recovery step"},
+            {"name": "migrate", "path": "/verif/mc/src/props/c20.rs", "serves_properties": ["C20"], "kind_free_text": "exhaustive sweep over migration configurations through the real migrate()"},
             {"name": "seqmc", "path": "/verif/mc", "serves_properties": sorted([k for k, v in CLAIMED.items() if "seqmc" in v[0]]),
              "kind_free_text": "bounded exhaustive graph search over histories x pipeline-stage schedules of the real Db in stepping mode, reference models, pipeline model PM in lock-step"},
         ],
